@@ -229,6 +229,12 @@ Section getters.
   Lemma arg_parsed_spec d a : spec d (arg_parsed qk tk a) (arg_parsed_pure tk (d_reg d) a).
   Proof. destruct a; simpl; [apply parse_str_spec | apply spec_ret]. Qed.
 
+  Lemma imul_arg_spec d u a : spec d (imul_arg qk tk u a) (imul_arg_pure tk (d_reg d) u a).
+  Proof.
+    unfold imul_arg, imul_arg_pure. apply spec_bind; [apply arg_parsed_spec|]. intros v _ s I.
+    rewrite (view_inv d s I). simpl. auto.
+  Qed.
+
   Lemma get_base_spec d u sysarg :
     q_bcache_sysarg qk = false ∨ sysarg = None →
     spec d (get_base qk u sysarg) (base_ans (d_systems d) (d_reg d) (eff_system d sysarg) u).
@@ -442,31 +448,39 @@ Section step.
       unfold live. unfold obj_ok in O.
       destruct (c_obj s) as [[u0 m0]|] eqn:Eo, (d_obj d) as [u0'|] eqn:Edo; try contradiction.
       + destruct O as [Eu Hm]. simpl in Eu. subst u0'.
-        destruct (arg_parsed_pure tk (d_reg d) a) as [v|e] eqn:Ea.
+        destruct (imul_arg_pure tk (d_reg d) u0 a) as [v|e] eqn:Ea.
         * set (d' := Decl (d_reg d) (d_systems d) (d_contexts d) (d_default d) (d_active d) (Some (uc_mul u0 v))).
           set (s0 := set_decl _ s).
           assert (I' : inv0 tk d' s0).
           { apply (inv0_redecl tk d d'); auto. rewrite Edo, (pview_no d Hn), Ea. reflexivity. }
           assert (Eo' : c_obj s0 = Some (u0, m0)) by exact Eo.
           rewrite Eo'.
-          destruct (arg_parsed_spec tk qk Hq d' a s0 I') as (I2 & E2 & O2).
+          destruct (imul_arg_spec tk qk Hq d' u0 a s0 I') as (I2 & E2 & O2).
           change (d_reg d') with (d_reg d) in E2. rewrite Ea in E2.
-          unfold fin, mbind. simpl. rewrite E2. simpl.
+          unfold fin, mbind. cbn [fst snd]. rewrite E2. simpl.
           split; [|reflexivity]. split.
           -- destruct I2. constructor; simpl; auto.
           -- unfold obj_ok. simpl. rewrite O2, Eo'. simpl. split; [reflexivity|].
              simpl in Hgd. apply negb_true_iff in Hgd. rewrite Hgd. discriminate.
-        * assert (Es : set_decl (λ d0, match d_obj d0, arg_parsed_pure tk (pview d0) a with
-                                   | Some u, Ok v => Decl (d_reg d0) (d_systems d0) (d_contexts d0) (d_default d0) (d_active d0) (Some (uc_mul u v))
-                                   | _, _ => d0 end) s = s).
+        * assert (Es : set_decl (λ d0, match d_obj d0 with
+                                   | Some u =>
+                                       match imul_arg_pure tk (pview d0) u a with
+                                       | Ok v => Decl (d_reg d0) (d_systems d0) (d_contexts d0) (d_default d0) (d_active d0) (Some (uc_mul u v))
+                                       | Err _ => d0
+                                       end
+                                   | None => d0 end) s = s).
           { destruct s. unfold set_decl. simpl in *. rewrite Hd, Edo, (pview_no d Hn), Ea. reflexivity. }
           rewrite Es, Eo.
-          destruct (arg_parsed_spec tk qk Hq d a s I) as (I1 & E1 & O1).
-          unfold fin, mbind. simpl. rewrite E1, Ea. simpl. split; [|reflexivity].
+          destruct (imul_arg_spec tk qk Hq d u0 a s I) as (I1 & E1 & O1).
+          unfold fin, mbind. cbn [fst snd]. rewrite E1, Ea. simpl. split; [|reflexivity].
           split; [exact I1|]. unfold obj_ok. rewrite O1, Eo, Edo. simpl. auto.
-      + assert (Es : set_decl (λ d0, match d_obj d0, arg_parsed_pure tk (pview d0) a with
-                                   | Some u, Ok v => Decl (d_reg d0) (d_systems d0) (d_contexts d0) (d_default d0) (d_active d0) (Some (uc_mul u v))
-                                   | _, _ => d0 end) s = s).
+      + assert (Es : set_decl (λ d0, match d_obj d0 with
+                                   | Some u =>
+                                       match imul_arg_pure tk (pview d0) u a with
+                                       | Ok v => Decl (d_reg d0) (d_systems d0) (d_contexts d0) (d_default d0) (d_active d0) (Some (uc_mul u v))
+                                       | Err _ => d0
+                                       end
+                                   | None => d0 end) s = s).
         { destruct s. unfold set_decl. simpl in *. rewrite Hd, Edo. reflexivity. }
         rewrite Es, Eo. simpl. split; [|reflexivity]. split; [exact I|]. unfold obj_ok. rewrite Eo, Edo. exact Logic.I.
     - (* quantity.dimensionality *)
@@ -495,7 +509,7 @@ Proof.
   - destruct (d_contexts d !! c); reflexivity.
   - destruct s as [n|]; [destruct (d_systems d !! n)|]; reflexivity.
   - destruct (arg_parsed_pure tk (pview d) a); reflexivity.
-  - destruct (d_obj d); [destruct (arg_parsed_pure tk (pview d) a)|]; reflexivity.
+  - destruct (d_obj d) as [u|]; [destruct (imul_arg_pure tk (pview d) u a)|]; reflexivity.
 Qed.
 Lemma op_plain_contexts d d' o : d_contexts d' = d_contexts d → op_plain d' o = op_plain d o.
 Proof. intros H. destruct o; simpl; try reflexivity. unfold ctx_redefs. rewrite H. reflexivity. Qed.
